@@ -89,6 +89,10 @@ CLAIMED["C31"] = dict(engine="mountsim", design="§6 C31",
    technique=TECH + "clean and dirty (torn cache files) restarts injected between chunk stores and lookups on the real tiered cache with tiny sizes that force rotation and eviction; same-file-id oracle",
    text="Store / lookup / slice-lookup sequences with file ids that share or differ in volume id, key and cookie, sizes around the tier limits (shrunk through the unit size), rotation of all three on-disk layers and memory eviction, clean shutdown + reopen and reopen on a copy with a cache volume's data or index file cut to a prefix. A lookup returns nothing or bytes stored under that same file id at the requested offset and length.",
    note="Trusted: single sequential caller; an id re-stored with different data may be answered with any of its stored values; file times are set from operation order.")
+CLAIMED["C35"] = dict(engine="cluster", design="§6 C35",
+   technique=TECH + "scheduler-interleaved notification and lookup steps on the real client location cache, with each reader's lookup split into obtain/consume steps; reference-set oracle and handed-out-list integrity check",
+   text="Add/remove notifications for a few volumes and servers are applied to the real wdclient vidMap in plan order while reader actors look volumes up; a lookup returns exactly the currently added locations (each once, same-data-center first) or not-found, and a list a reader obtained is still intact when it consumes it after later updates (no duplicated, lost or torn entries). Interleaving is at call granularity; the race-detector clause and the reconnecting stream against a real master are not part of this check.",
+   note="Trusted: notifications are applied through thin wrappers around addLocation/deleteLocation exactly as tryConnectToMaster does; a reader holds the slice the API returned.")
 
 PLANNED = {}
 
